@@ -13,6 +13,7 @@ import QbiceVerif.Lemmas.TinyLfuStep
 import QbiceVerif.Lemmas.TinyLfuLock
 import QbiceVerif.Lemmas.TinyLfuWitness
 import QbiceVerif.Lemmas.TinyLfuPollFix
+import QbiceVerif.Lemmas.TinyLfuAtomic
 
 namespace QbiceVerif.C16
 open QbiceVerif.TinyLfu
@@ -263,6 +264,25 @@ theorem lock_table_same_lock {cfg : Cfg σ} {sk : σ} {ops : List LOp} {t t' : L
     (h : lrun cfg (LockTable.init sk) ops = .ok t) (hh : (q, id) ∈ t.handles)
     (ha : acquire cfg t q = .ok (t', id')) : id' = id :=
   acquire_same htok (lrun_linv htok h (linv_init sk)) hh ha
+
+/-! ### the atomicity `lock_table_same_lock` relies on
+
+In the model above an eviction attempt (`removeClosure`: ask `is_pinned`, then remove) is ONE step, as in
+`remove_closure` of tiny_lfu.rs, which does both under one write lock of the bucket.  The two theorems
+below (one key of the lock table, eviction attempts interleaved with other tasks' `get`s) state that
+this atomicity is exactly what the property needs. -/
+
+/-- Atomic eviction attempts: under every interleaving of acquisitions, releases and eviction attempts
+all live references are the one stored lock instance. -/
+theorem same_lock_needs_atomic_eviction_holds (evs : List Atomic.Ev)
+    (hev : ∀ e, e ∈ evs → e ≠ .check ∧ e ≠ .remove) : Atomic.SameLock (Atomic.run {} evs) :=
+  (Atomic.same_lock_atomic evs hev).2
+
+/-- If the pin question and the removal are two steps (`read_sync(is_pinned)`, then `remove_sync`), a `get`
+between them breaks the property: after `Atomic.splitWitness` two live references point at different lock
+instances of the same key. -/
+theorem same_lock_fails_when_eviction_is_split : ¬ Atomic.SameLock (Atomic.run {} Atomic.splitWitness) :=
+  Atomic.same_lock_fails_when_split.2
 
 /-! ## non-vacuity -/
 
